@@ -145,6 +145,10 @@ func checkC16(p *Program, r *Report) {
 								break
 							}
 						}
+						if isNamed(f.Type(), "github.com/gcash/bchd/chaincfg/chainhash", "Hash") && !isNilConst(st.Val) {
+							okDep, howDep := hashOfMessage(st.Val, fa.X, msgField)
+							r.Add("C16.writers", FnName(fn), "cached "+tn+"."+f.Name()+" is the wrapped message's own hash", st.Pos(), okDep, howDep)
+						}
 						if _, isAlloc := base.(*ssa.Alloc); isAlloc || fresh {
 							r.Add("C16.writers", FnName(fn), "memo "+tn+"."+f.Name()+" initialised on a fresh object", st.Pos(), true, "constructor")
 							continue
@@ -371,6 +375,37 @@ func c16index(p *Program, r *Report) {
 			r.Add("C16.index", FnName(txsM), "the completion flag is set only after every empty slot was filled", st.Pos(), okAfter, "dominated by the filling loop's exhaustion edge")
 		}
 	}
+	// every other index / slice expression in the methods of Block and Tx
+	for _, tn := range []string{"Block", "Tx"} {
+		for _, m := range p.Methods("", tn) {
+			if m == txM {
+				continue
+			}
+			recv := ssa.Value(m.Params[0])
+			lc := NewLinCtx(p, m)
+			lc.alias = av.Run(m)
+			pr := NewProver(p, m, lc)
+			for _, ob := range enumerateC08(p, m, lc) {
+				if ob.kind != "index" && ob.kind != "slice" {
+					continue
+				}
+				var extra []Lin
+				for i := 0; i < blockT.Type().Underlying().(*types.Struct).NumFields(); i++ {
+					cf := blockT.Type().Underlying().(*types.Struct).Field(i)
+					if _, isSl := cf.Type().Underlying().(*types.Slice); isSl && tn == "Block" {
+						extra = append(extra, cacheInvariant(lc, m, recv, cf)...)
+					}
+				}
+				okAll := true
+				for _, g := range ob.goals {
+					if ok, _ := pr.ProveWith(ob.in.Block(), extra, g); !ok {
+						okAll = false
+					}
+				}
+				r.Add("C16.range", FnName(m), ob.construct+" is in range", p.InstrPos(ob.in), okAll, "an out-of-range index yields an error, never a panic")
+			}
+		}
+	}
 	r.Floor("C16.index", 5)
 	r.Floor("C16.range", 4)
 }
@@ -405,6 +440,18 @@ func cacheInvariant(lc *LinCtx, fn *ssa.Function, recv ssa.Value, cf *types.Var)
 		return nil
 	}
 	var out []Lin
+	// the wrapped message is not modified while it is wrapped (trusted, documented): every read of
+	// len(msg.Transactions) in this function sees the same length
+	for _, b := range fn.Blocks {
+		for _, in := range b.Instrs {
+			if u, ok := in.(*ssa.UnOp); ok {
+				if f, _, ok := fieldLoad(u); ok && f.Name() == "Transactions" && strings.Contains(exprString(u), recvMsgPrefix(fn)) {
+					l := lc.LenLin(u)
+					out = append(out, l.add(*msgLen, -1), msgLen.add(l, -1))
+				}
+			}
+		}
+	}
 	// for every load of the cache field: len(load) == len(msg.Transactions) provided len(load) != 0
 	// expressed as two facts guarded by the non-emptiness the prover must find itself: we add only
 	// the implication's consequence for loads that happen after the sizing merge
@@ -449,4 +496,53 @@ func afterSizing(fn *ssa.Function, b *ssa.BasicBlock, recv ssa.Value, cf *types.
 		}
 	}
 	return false
+}
+
+// hashOfMessage: v is &h where h holds the result of a method call whose
+// receiver is the wrapped message of the same object (obj.msgField), or of the
+// local message a constructor is about to wrap.
+func hashOfMessage(v ssa.Value, obj ssa.Value, msgField *types.Var) (bool, string) {
+	al, ok := v.(*ssa.Alloc)
+	if !ok {
+		return false, "stored value is not the address of a freshly computed hash: " + exprString(v)
+	}
+	var w ssa.Value
+	for _, ref := range *al.Referrers() {
+		if st, ok := ref.(*ssa.Store); ok && st.Addr == ssa.Value(al) {
+			if w != nil {
+				return false, "the hash variable is assigned more than once"
+			}
+			w = st.Val
+		}
+	}
+	if w == nil {
+		return false, "the hash variable is never assigned"
+	}
+	call, ok := w.(*ssa.Call)
+	if !ok || call.Call.StaticCallee() == nil || call.Call.StaticCallee().Signature.Recv() == nil || len(call.Call.Args) != 1 {
+		return false, "the cached hash is computed by " + exprString(w) + ", not by a method of the wrapped message"
+	}
+	recv := call.Call.Args[0]
+	if f, base, ok := fieldLoad(recv); ok && f == msgField && base == canonRoot(obj) {
+		return true, "hash := obj." + msgField.Name() + "." + call.Call.StaticCallee().Name() + "()"
+	}
+	// constructor: the message variable that is stored into obj.msgField
+	for _, ref := range *obj.Referrers() {
+		if fa, ok := ref.(*ssa.FieldAddr); ok && fieldOfAddr(fa) == msgField {
+			for _, u := range *fa.Referrers() {
+				if st, ok := u.(*ssa.Store); ok && st.Val == recv {
+					return true, "hash of the message being wrapped"
+				}
+			}
+		}
+	}
+	return false, "the cached hash is computed from " + exprString(recv) + ", not from the wrapped message"
+}
+
+// recvMsgPrefix: textual prefix of loads through the receiver's message field (b.msgBlock.…).
+func recvMsgPrefix(fn *ssa.Function) string {
+	if len(fn.Params) == 0 {
+		return "\x00"
+	}
+	return fn.Params[0].Name() + "."
 }
